@@ -67,6 +67,8 @@ def near_misses(rng, s, limit):
             out.append(("prefix", s[:k]))
     out += [("extend", s + b"x"), ("extend", s + b" "), ("extend", s + s[-1:] if s else b"a"), ("prepend", b" " + s),
             ("blank", s[:n // 2] + b" " + s[n // 2:]), ("tab", s[:n // 2] + b"\t" + s[n // 2:]),
+            ("ctrl", s[:n // 2] + bytes([rng.choice(b"\n\r\x0b\x0c\x01\x1f\x7f")]) + s[n // 2:]),
+            ("ctrl", s + bytes([rng.choice(b"\n\r\x0b\x0c")])), ("strip-ws", bytes(c for c in s if c not in b" \t\n\r\x0b\x0c")),
             ("swapcase", s.swapcase()), ("upper", s.upper()), ("double", s + s)]
     seen, uniq = {s}, []
     for kind, m in out:
@@ -90,7 +92,8 @@ def password_classes(rng, h, bname, tier):
            ("text-2byte", H.pw_text(rng, rng.choice([3, 7, 9]), (2,))), ("text-mixed", H.pw_text(rng, rng.choice([4, 8, 16]), (1, 2, 3, 4))),
            ("text-ascii", H.pw_bytes(rng, rng.choice([6, 10, 20])).decode()),
            ("non-utf8", H.pw_bytes(rng, rng.choice([3, 9, 17]), "high")),
-           ("letters", bytes(rng.choice(b"abcdefXYZ") for _ in range(rng.choice([4, 7, 12]))).decode())]
+           ("letters", bytes(rng.choice(b"abcdefXYZ") for _ in range(rng.choice([4, 7, 12]))).decode()),
+           ("ws", H.pw_bytes(rng, rng.choice([5, 9, 14]), "ws"))]
     if t:
         for d in (-1, 0, 1):
             out.append((f"trunc{d:+d}", H.pw_bytes(rng, t + d)))
@@ -263,7 +266,14 @@ def libpass(run):
                 continue
             w = dict(hasher="libpass." + name, password=pw)
             try:
-                hs = hh.hash(pw)
+                skw = {}
+                if i % 3 and name.endswith("_crypt"):
+                    salt = "".join(rng.choice("./0123456789ABCxyz") for _ in range(rng.choice([1, 8, 14, 15, 16])))
+                    skw = dict(salt=salt if i % 2 else salt.encode())
+                elif i % 3 and name.startswith("pbkdf2"):
+                    skw = dict(salt=H.pw_bytes(rng, rng.choice([1, 8, 16, 24]), "binary"))
+                w["salt"] = skw.get("salt")
+                hs = hh.hash(pw, **skw)
                 idf = hh.identify(hs)
                 v1 = hh.verify(hs, pw)
                 alt = pw.encode() if isinstance(pw, str) else (pw.decode() if H.is_utf8(pw) else pw)
